@@ -121,7 +121,7 @@ def cases():
     ff = lambda rng: ((rnd(rng, (5,)), rnd(rng, (5,))), {})
     out = []
     add = lambda name, real, gen, **kw: out.append((name, real, gen, kw))
-    for name, real in [('numpy.abs', np.abs), ('numpy.fabs', np.fabs), ('numpy.sign', np.sign), ('numpy.floor', np.floor), ('numpy.ceil', np.ceil),
+    for name, real in [('numpy.abs', np.abs), ('numpy.fabs', np.fabs), ('numpy.sign', np.sign), ('numpy.floor', np.floor), ('numpy.ceil', np.ceil), ('numpy.round', np.round), ('numpy.rint', np.rint),
                        ('numpy.cumsum', np.cumsum), ('numpy.sum', np.sum), ('numpy.mean', np.mean), ('numpy.max', np.max), ('numpy.min', np.min),
                        ('numpy.amax', np.amax), ('numpy.amin', np.amin), ('numpy.argmax', np.argmax), ('numpy.argmin', np.argmin), ('numpy.diff', np.diff),
                        ('numpy.flip', np.flip), ('numpy.sort', np.sort), ('numpy.argsort', np.argsort), ('numpy.copy', np.copy), ('numpy.ravel', np.ravel),
@@ -142,6 +142,7 @@ def cases():
                        ('numpy.minimum', np.minimum), ('numpy.dot', np.dot), ('numpy.outer', np.outer), ('numpy.array_equal', np.array_equal),
                        ('numpy.append', np.append), ('numpy.isclose', np.isclose), ('numpy.allclose', np.allclose)]:
         add(name, real, ff)
+    add('numpy.round/ties', np.round, lambda rng: ((np.array([0.5, 1.5, 2.5, -0.5, -1.5, 2.25, -2.75]),), {}))
     add('numpy.divide', np.divide, lambda rng: ((rnd(rng, (5,)), rnd(rng, (5,)) + 9.0), {}))
     add('numpy.true_divide/int', np.true_divide, lambda rng: ((rnd(rng, (5,), 'i'), rnd(rng, (5,), 'i') + 9), {}))
     add('numpy.mod/int', np.mod, lambda rng: ((rnd(rng, (5,), 'i'), 3), {}))
